@@ -111,15 +111,18 @@ func init() {
 		// the thorough tier > 2^16), judged by layer B: every section resolvable through the index
 		{
 			r := c.R.Fork()
-			ns := []int{16384 + 1 + r.Intn(700)}
+			ns := []int{16384 + 1 + r.Intn(700), 16384 + 1 + r.Intn(700)}
 			if c.Thorough {
 				ns = append(ns, 16384, 32768+r.Intn(50), 65536+1+r.Intn(500))
 			}
-			for _, n := range ns {
+			for k, n := range ns {
 				o := defaultXOpts
 				o.maxSeek = fileSeek
 				o.storeID = r.Chance(30)
 				o.codec = pick(r, []uint64{0, 0x0400, 0x0401})
+				if k < 2 {
+					o.codec = []uint64{0x0400, pick(r, []uint64{0, 0x0401})}[k] // both index kinds in every run
+				}
 				seed := r.U64() >> 1
 				idEvery := pick(r, []int{0, 9, 50})
 				in := VL{o.val(), VN(uint64(n)), VN(seed), VN(uint64(idEvery))}
